@@ -74,10 +74,15 @@ theorem C06_same_byte (f : Fmt) (img : Img) (v : View) (hv : fromBytes f .file i
   rw [e] at this
   exact this
 
-/-- Non-vacuity of `Loadable` is exercised on generator images by the correspondence check
-(`hyp=1` lines); the disjointness relation is satisfiable by distinct non-empty sections: -/
-example : [(⟨0,0,0x300,0x1000,0x200,0x400,0⟩ : Sec), ⟨0,0,0x100,0x2000,0x200,0x600,0⟩].Pairwise
-    (fun a b => a.va + a.vs ≤ b.va ∨ b.va + b.vs ≤ a.va) := by
-  decide
+/-- Non-vacuity: a concrete PE32 file (`tinyPe`, one section of two stored and mapped bytes) is
+accepted, is `Loadable`, and `slice(224, 1, 1)` succeeds on it with the byte mapped — all
+hypotheses of the theorems above hold together. -/
+example : fromBytes .pe32 .file ⟨tinyPe 2 226, 0⟩ = .ok (tinyView 2 226) ∧ Loadable (tinyView 2 226) ∧
+    (tinyView 2 226).secs = [⟨0, 0, 2, 224, 2, 224, 0⟩] ∧
+    (tinyView 2 226).slice 224 1 1 = .ok ⟨224, 2, 1⟩ ∧
+    firstV (tinyView 2 226).secs 224 = some ⟨0, 0, 2, 224, 2, 224, 0⟩ := by
+  refine ⟨tinyView_ok _ _ (by decide +kernel), ?_, by decide +kernel, by decide +kernel, by decide +kernel⟩
+  unfold Loadable
+  decide +kernel
 
 end Pelite.Pe
